@@ -42,6 +42,7 @@ type Finding struct {
 type Report struct {
 	Datagrams, Packets, Opened, NotOpened, Frames int
 	Connections                                   int
+	Gen                                           [2]int // highest 1-RTT key generation each side was seen sending with
 	Findings                                      []Finding
 	Kinds                                         map[string]int // frame and packet kinds seen (outcome material)
 }
@@ -487,6 +488,7 @@ func (c *conn) short(rep *Report, ev sim.Event, d int, pkt []byte, arr time.Dura
 				rep.Kinds[who+":key-update"]++
 				me.gen = g
 			}
+			rep.Gen[d] = max(rep.Gen[d], me.gen)
 			c.appSecret[d], c.suite = cd.sec, cd.s
 			rep.Opened++
 			rep.Kinds[who+":1-RTT"]++
